@@ -482,6 +482,16 @@ class Interp:
         q = None
         if getattr(env, "func", None) is not None and env.func.qualname:
             q = env.func.qualname + ".<locals>." + s.name
+        if q is not None and q in self.contracts and self.contracts[q] is not None:
+            # a nested function under contract (the harness verifies its body in a unit of its own)
+            con, interp = self.contracts[q], self
+
+            def call(*args, **kwargs):
+                interp.ctx.notes["contracts_used"].add(q)
+                return con(interp, *args, **kwargs)
+
+            env.set(s.name, call)
+            return
         env.set(s.name, Closure(s, env, self, env.mod(), None, q))
 
     def st_If(self, s, env):
@@ -953,7 +963,10 @@ class Interp:
             raise Undecided(f"attribute {name} of {type(obj).__name__}")
 
     def concrete_method(self, obj, name):
-        m = getattr(obj, name)
+        try:
+            m = getattr(obj, name)
+        except AttributeError:
+            raise Undecided(f"{type(obj).__name__}.{name} is not modelled")
         interp = self
 
         def call(*args, **kwargs):
